@@ -159,15 +159,22 @@ def copyLoop : List Bytes → Bytes
 /-- the upgraded hand-over (proxy.rs 152-160): `buffered` is what the client's
     `BufReader` still holds after the upgrading request, `later` what the client
     sends afterwards (as a read schedule); `svcOut` maps the bytes the upgraded
-    service receives to the bytes it sends. -/
+    service receives to the bytes it sends.  `readAhead`: how many of the service's
+    bytes the bridge had already read, together with the reply to the upgrading
+    call, into the `BufReader` it uses for that reply — that reader is dropped at the
+    hand-over, and those bytes with it. -/
 structure Pumped where
   toService : Bytes
   toClient : Bytes
 deriving Repr, DecidableEq
 
-def upgradedPump (svcOut : Bytes → Bytes) (buffered : Bytes) (later : List Bytes) : Pumped :=
+def upgradedPump (svcOut : Bytes → Bytes) (buffered : Bytes) (later : List Bytes) (readAhead : Nat := 0) : Pumped :=
   let ts := buffered ++ copyLoop later      -- `service_writer.write_all(client_bufreader.buffer())`, then the copy loop
-  { toService := ts, toClient := svcOut ts }
+  { toService := ts, toClient := (svcOut ts).drop readAhead }
+
+/-- the `BufReader` the bridge reads the reply through holds 8 KiB: of a service that writes `early`
+    bytes in one go with its reply (`replyLen` bytes incl. the NUL), this many are read ahead -/
+def readAheadOf (replyLen early : Nat) : Nat := min early (8192 - replyLen)
 
 /-- `proxy::handle_connect`: `clientReads` / `svcSched` are the read schedules of the
     two copy loops over the complete streams (whether the connection has a child process
